@@ -1,4 +1,18 @@
+-- root of the library: every module, so that `lake build` checks everything
 import BibVerif.Py
 import BibVerif.Model
 import BibVerif.Lex
 import BibVerif.Split
+import BibVerif.Grammar
+import BibVerif.Lemmas.Tile
+import BibVerif.Lemmas.LexNl
+import BibVerif.Lemmas.NoRaise
+import BibVerif.Lemmas.Scan
+import BibVerif.Lemmas.Blocks
+import BibVerif.Lemmas.Doc
+import BibVerif.Lemmas.Resync
+import BibVerif.Props.C01
+import BibVerif.Props.C02
+import BibVerif.Props.C03
+import BibVerif.Props.C04
+import BibVerif.Wire.All
